@@ -30,13 +30,17 @@ oq = bind_repo()
 LEVEL = "exploration"
 
 EPSREL = 2.0 ** -26          # oqupy.config.INTEGRATE_EPSREL, the tolerance every library call here asks for
-# tolerance of a cell = C_SMOOTH * EPSREL * S (+ noise term), S = sum of |eta| at the corner times of the cell: the
-# library forms cells as second differences of eta, so its absolute error scales with |eta|, not with the cell.
-C_SMOOTH = 70.0
-C_NOISE = 30.0               # extra, only for power laws with zeta < 1 at T > 0: C_NOISE * EPSREL * T * 2 alpha wc^(1-zeta)
-                             # per eta term.  The library's thermal kernel is evaluated with cancellation at small w,
-                             # which leaves an ABSOLUTE error ~ eps_machine * T * J(w) / w^3 (IntegrationWarning is issued)
-C_POINT = 70.0               # C(tau) against own quadrature, scale |C(0)|
+EPSABS = 1.49e-8             # scipy.integrate.quad's default absolute tolerance, which the library does not override:
+                             # every quad call may stop at max(EPSABS, EPSREL |I|); one eta value = up to 4 quad calls
+# tolerance of a cell = C * EPSREL * S + 4 * EPSABS * nterms (+ noise term), S = sum of |eta| at the nterms corner times
+# of the cell: the library forms cells as second differences of eta, so its absolute error scales with |eta|, not with
+# the cell.  Constants fixed after measuring the whole quick and thorough alphabets on the unchanged tree (see run()).
+C_SMOOTH = 50.0              # measured max |dev| / (EPSREL S): 0.9  (a quad call stopping right at its tolerance)
+C_SUB = 1200.0               # power laws with zeta < 1 at T > 0: QUADPACK's extrapolation at the w^(zeta-1) end point,
+                             # fed with a kernel that is evaluated with cancellation at small w, reaches 1e-7..2e-6 only
+C_NOISE = 30.0               # same regime, in addition C_NOISE * EPSREL * T * 2 alpha wc^(1-zeta) per eta term: the
+                             # cancellation leaves an ABSOLUTE error ~ eps_machine * T * J(w) / w^3 (visible for small dt)
+C_POINT = 50.0               # C(tau) against own quadrature, scale |C(0)|
 TOL_EXACT = 1e-11            # relations that hold bit-for-bit up to rounding (C(-tau) = conj C(tau))
 ACTIVE = 30.0                # a cell is non-trivial iff |cell| >= ACTIVE * tolerance (a factor-2 bug is a >= 30 tol effect)
 
@@ -107,7 +111,12 @@ def noise_unit(ob, temp):
 
 def tol_fn(ob, temp):
     nu = noise_unit(ob, temp)
-    return lambda s, nterms: C_SMOOTH * EPSREL * s + C_NOISE * nu * nterms
+    crel = C_SUB if nu > 0.0 else C_SMOOTH
+    return lambda s, nterms: crel * EPSREL * s + (C_NOISE * nu + 4.0 * EPSABS) * nterms
+
+
+def tol_point(c0):
+    return C_POINT * EPSREL * c0 + 4.0 * EPSABS
 
 
 def tclass(temp):
@@ -222,12 +231,12 @@ def _eval_case(ob, dt, do_selfint):
             cp = complex(lib.correlation(tau))
             cm = complex(lib.correlation(-tau))
             nm = f"C({tau / dt:g}dt)"
-            recs.append(("symmetry", nm, abs(cm - np.conj(cp)), TOL_EXACT * c0, cm, np.conj(cp)))
+            recs.append(("symmetry", nm, abs(cm - np.conj(cp)), TOL_EXACT * c0, cm, complex(np.conj(cp))))
             ref = orc.real(O.k_point(tau), tau)
-            recs.append(("spectral", nm, abs(cp - ref), C_POINT * EPSREL * c0, cp, ref))
+            recs.append(("spectral", nm, abs(cp - ref), tol_point(c0), cp, ref))
             if closed:
                 cf = complex(O.closed_c(ob["alpha"], ob["zeta"], ob["wc"], tau))
-                recs.append(("closed", nm, abs(cp - cf), C_POINT * EPSREL * c0, cp, cf))
+                recs.append(("closed", nm, abs(cp - cf), tol_point(c0), cp, cf))
         # ---- check B: integrate the object's own correlation() with the overlap weight of each cell
         if do_selfint:
             x, wt = O.gl(GL_ORDER)
@@ -290,7 +299,7 @@ def eval_matsubara(case):
             eta = {0: 0.0}
             for k in range(1, nst + 1):
                 eta[k] = abs(sp.integrate_m(O.km_tri(k * d, beta)))
-            active, got, gtol = {}, {}, {}
+            active, got, gtol, gmod, affected = {}, {}, {}, {}, {}
             for k in range(nst):
                 shape = "upper-triangle" if k == 0 else "square"
                 v = lib.correlation_2d_integral(d, k * d, shape=shape, matsubara=True)
@@ -306,15 +315,21 @@ def eval_matsubara(case):
                 active[name] = abs(ref) / tol
                 got[name], gtol[name] = float(v), tol
                 dev = abs(float(v) - ref)
+                model = -sp.integrate_m(kern, drop_above=w0)
+                gmod[name] = model
                 recs.append(("matsubara-value", name, dev, tol, float(v), ref))
-                stats.append(("matsubara-value", name, dev, s, nt))
+                affected[name] = abs(model - ref) > 0.01 * tol
                 if dev > tol:
-                    model = -sp.integrate_m(kern, drop_above=w0)
                     pinned[name] = bool(abs(float(v) - model) <= tol)
             for k in range(1, nst):
                 if k < nst - k and f"sq{k}" in got and f"sq{nst - k}" in got:
-                    a, b = got[f"sq{k}"], got[f"sq{nst - k}"]
-                    recs.append(("matsubara-kms", f"sq{nst - k}", abs(a - b), gtol[f"sq{k}"] + gtol[f"sq{nst - k}"], b, a))
+                    na, nb = f"sq{k}", f"sq{nst - k}"
+                    a, b = got[na], got[nb]
+                    tol = gtol[na] + gtol[nb]
+                    recs.append(("matsubara-kms", nb, abs(a - b), tol, b, a))
+                    affected["kms:" + nb] = affected[na] or affected[nb]
+                    if abs(a - b) > tol:
+                        pinned["kms:" + nb] = bool(abs((a - b) - (gmod[na] - gmod[nb])) <= tol)
             c0 = abs(sp.integrate_m(O.km_point(0.0, beta)))
             cv = {}
             for frac in (0.0, 0.25, 0.5, 0.75, 1.0):
@@ -325,16 +340,23 @@ def eval_matsubara(case):
                     continue
                 kern = O.km_point(frac * beta, beta)
                 ref = sp.integrate_m(kern)
-                tol = C_POINT * EPSREL * c0
+                tol = tol_point(c0)
                 dev = abs(float(v) - ref)
                 cv[frac] = float(v)
+                model = sp.integrate_m(kern, drop_above=w0)
+                gmod[frac] = model
                 recs.append(("matsubara-value", name, dev, tol, float(v), ref))
+                affected[name] = abs(model - ref) > 0.01 * tol
                 if dev > tol:
-                    model = sp.integrate_m(kern, drop_above=w0)
                     pinned[name] = bool(abs(float(v) - model) <= tol)
             for fa, fb in ((0.0, 1.0), (0.25, 0.75)):
                 if fa in cv and fb in cv:
-                    recs.append(("matsubara-kms", f"C({fb:g}beta)", abs(cv[fa] - cv[fb]), 2 * C_POINT * EPSREL * c0, cv[fb], cv[fa]))
+                    nb = f"C({fb:g}beta)"
+                    d = cv[fa] - cv[fb]
+                    recs.append(("matsubara-kms", nb, abs(d), 2 * tol_point(c0), cv[fb], cv[fa]))
+                    affected["kms:" + nb] = affected[f"C({fa:g}beta)"] or affected[nb]
+                    if abs(d) > 2 * tol_point(c0):
+                        pinned["kms:" + nb] = bool(abs(d - (gmod[fa] - gmod[fb])) <= 2 * tol_point(c0))
             # vacuity: weight of w > 36 T in D(beta) = D(0)
             kern = O.km_point(beta, beta)
             full = sp.integrate_m(kern)
@@ -343,6 +365,7 @@ def eval_matsubara(case):
             info["active"] = active
             info["stats"] = stats
             info["pinned"] = pinned
+            info["affected_by_guard"] = sorted(k for k, v in affected.items() if v)
             info["selfcheck"] = sp.worst_selfcheck
         except Exception as ex:  # noqa
             import traceback
@@ -355,7 +378,7 @@ def eval_matsubara(case):
 # enumeration
 
 def objects(tier):
-    zetas = [1.0, 2.0, 0.5, 4.0] + ([3.0, 0.25] if tier == "thorough" else [])
+    zetas = [1.0, 2.0, 0.5, 4.0] + ([3.0, 0.75] if tier == "thorough" else [])
     alphas = [0.25] + ([4.0, 0.004] if tier == "thorough" else [])
     out = []
     for cls in ("PowerLawSD", "CustomSD"):
@@ -400,7 +423,9 @@ def violation_class(ob, check, name, info):
         if check == "matsubara-real":
             return f"{ob['cls']}|{ob['ctype']}|matsubara|{sc}|not-a-finite-real"
         if check == "matsubara-kms":
-            return f"{ob['cls']}|matsubara|{sc}|kms-asymmetry"
+            if info.get("pinned", {}).get("kms:" + name):
+                return f"{ob['cls']}|matsubara|{sc}|kms-asymmetry-equal-to-the-term-dropped-above-overflow-guard"
+            return f"{ob['cls']}|{ob['ctype']}|matsubara|{sc}|kms-asymmetry"
         if info.get("pinned", {}).get(name):
             # pinned signature: equals the integral in which, above w = 36.04 T, only exp(-w tau) is kept
             return f"{ob['cls']}|matsubara|{sc}|value-drops-exp(-w(beta-tau))-above-overflow-guard"
@@ -427,24 +452,40 @@ def judge(case, res, matsubara=False):
     return out
 
 
+def probe(args):
+    """accuracy outside the alphabet (not judged): relative deviation of triangle and first square."""
+    zeta, temp, dt = args
+    with warnings.catch_warnings():
+        warnings.simplefilter("ignore")
+        lib = oq.PowerLawSD(0.25, zeta, 1.0, "exponential", temperature=temp)
+        sp = O.Spectrum(O.j_powerlaw(0.25, zeta, 1.0), "exponential", 1.0, temp, power=O.power_for(zeta))
+        a = complex(lib.correlation_2d_integral(dt, 0.0, shape="upper-triangle"))
+        b = complex(lib.correlation_2d_integral(dt, dt, shape="square"))
+        ra = sp.integrate(O.k_tri(dt), tmax=dt)
+        rb = sp.integrate(O.k_rect(dt, 2 * dt, dt), tmax=2 * dt)
+    return {"zeta": zeta, "T": temp, "dt": dt, "triangle_rel_dev": abs(a - ra) / abs(ra), "square_rel_dev": abs(b - rb) / abs(rb),
+            "triangle_abs_dev": abs(a - ra)}
+
+
 def run(tier, seed):
     rep = Report(LEVEL)
     cases, mats = build_cases(tier)
     res = pmap(eval_case, cases, chunksize=1, seed=seed)
     mres = pmap(eval_matsubara, mats, chunksize=1, seed=seed)
+    probes = pmap(probe, [(z, t, d) for z in (0.25, 0.5) for t in (1.0, 50.0) for d in (0.01, 0.002)], chunksize=1, seed=seed)
 
     nontrivial = set()
     n_eval = 0
     worst = {}          # check -> (ratio, what)   (passing comparisons only: the head-room actually available)
-    max_smooth = 0.0    # max dev / S              over objects without noise term
-    max_noise = 0.0     # max dev / (noise unit * nterms)   over objects with noise term
-    max_noise_rel = 0.0
+    calib = {"smooth": {"max_dev_over_sum_eta": 0.0, "max_abs_dev": 0.0, "max_dev_over_tol": 0.0},
+             "zeta<1,T>0": {"max_dev_over_sum_eta": 0.0, "max_abs_dev": 0.0, "max_dev_over_tol": 0.0}}
     min_active = 1e300
     guard, mguard = {}, {}
     selfcheck = 0.0
     nwarn = 0
     cpu = 0.0
     tri1 = {"documented": 0, "eta-difference": 0, "neither": 0}
+    n_affected = 0
     by_key = {}
     for c, r in list(zip(cases, res)) + list(zip(mats, mres)):
         is_m = "N" in c
@@ -457,7 +498,11 @@ def run(tier, seed):
         info = r["info"]
         selfcheck = max(selfcheck, info.get("selfcheck", 0.0))
         tag = f"{ob_key(ob)} {'N=%d' % c['N'] if is_m else 'dt=%g' % c['dt']}"
+        aff = set(info.get("affected_by_guard", []))
+        n_affected += len(aff)
         for check, name, dev, tol, v, ref in r["recs"]:
+            if (("kms:" + name) if check == "matsubara-kms" else name) in aff and check.startswith("matsubara"):
+                continue        # the known overflow-guard defect is materially present in this comparison
             if tol > 0 and dev <= tol and dev / tol > worst.get(check, (0.0, ""))[0]:
                 worst[check] = (dev / tol, f"{tag} {name}")
         if r["exc"]:
@@ -465,14 +510,14 @@ def run(tier, seed):
         temp = temperature(ob["T"], ob["wc"])
         nu = noise_unit(ob, temp)
         bad = {(ch, n) for ch, n, dev, tol, v, ref in r["recs"] if not dev <= tol}
+        cb = calib["smooth" if nu == 0.0 else "zeta<1,T>0"]
+        tolf = tol_fn(ob, temp)
         for check, name, dev, s, nt in info.get("stats", []):
             if (check, name) in bad:
                 continue
-            if nu == 0.0:
-                max_smooth = max(max_smooth, dev / s)
-            else:
-                max_noise = max(max_noise, dev / (nu * nt))
-                max_noise_rel = max(max_noise_rel, dev / s)
+            cb["max_dev_over_sum_eta"] = max(cb["max_dev_over_sum_eta"], dev / s)
+            cb["max_abs_dev"] = max(cb["max_abs_dev"], dev)
+            cb["max_dev_over_tol"] = max(cb["max_dev_over_tol"], dev / tolf(s, nt))
         for name, a in info.get("active", {}).items():
             if a >= ACTIVE:
                 nontrivial.add((ob_key(ob), "M%d" % c["N"] if is_m else c["dt"], name))
@@ -530,17 +575,19 @@ def run(tier, seed):
                 "3beta/4, beta. evaluations = individual comparisons. A case (object, dt or N, cell) is non-trivial iff "
                 "|exact cell| >= 30 x its tolerance (so a factor-2 error in that cell is a >= 30-tolerance effect; for the "
                 "positioned triangle: the two candidate semantics differ by >= 30 tol); distinct by (object, dt|N, cell)",
-        "samples": [cases[seed % len(cases)], cases[(seed + 211) % len(cases)], mats[seed % len(mats)]],
+        "samples": [cases[0], cases[211 % len(cases)], mats[0]],
         "exhaustive": True,
         "max_dev": maxq, "tolerance": 1.0, "max_dev_over_tol": maxq,
-        "tolerance_rule": f"every comparison has its own tolerance: cells {C_SMOOTH:g}*epsrel*sum|eta(corner times)| "
-                          f"(+ {C_NOISE:g}*epsrel*T*2alpha*wc^(1-zeta) per eta term for power laws with zeta<1 at T>0), "
-                          f"C(tau) {C_POINT:g}*epsrel*C(0), epsrel = 2^-26; max_dev is the largest deviation of a passing "
-                          "comparison in units of its own tolerance (so tolerance = 1)",
+        "tolerance_rule": f"every comparison has its own tolerance: cells C*epsrel*S + 4*epsabs*n, S = sum|eta| over the n "
+                          f"corner times, C = {C_SMOOTH:g} (C = {C_SUB:g} plus {C_NOISE:g}*epsrel*T*2alpha*wc^(1-zeta)*n for power "
+                          f"laws with zeta<1 at T>0); C(tau): {C_POINT:g}*epsrel*C(0) + 4*epsabs; epsrel = 2^-26 and epsabs = "
+                          "1.49e-8 are the tolerances the library passes to QUADPACK. max_dev is the largest deviation of a "
+                          "passing comparison in units of its own tolerance (so tolerance = 1); Matsubara comparisons in "
+                          "which dropping exp(-w(beta-tau)) above w = 36.04 T changes the exact value by more than 1% of the "
+                          "tolerance are left out of this head-room statistic (they fail, or pass with a partial effect)",
+        "matsubara_comparisons_materially_affected_by_overflow_guard": n_affected,
         "worst_passing_ratio_per_check": {k: {"dev_over_tol": v[0], "case": v[1]} for k, v in sorted(worst.items())},
-        "calibration": {"max_dev_over_sum_eta_smooth_objects": max_smooth, "allowed": C_SMOOTH * EPSREL,
-                        "max_dev_over_noise_unit_zeta<1_T>0": max_noise, "allowed_noise_units": C_NOISE,
-                        "max_dev_over_sum_eta_zeta<1_T>0": max_noise_rel},
+        "calibration_real_time_cells": calib,
         "class_agreement": {"comparisons": n_class, "max_dev_over_tol": max_class},
         "min_active_ratio_of_nontrivial": min_active,
         "guard_else_branch_weight_in_triangle": guard,
@@ -548,14 +595,16 @@ def run(tier, seed):
         "positioned_triangle_semantics": tri1,
         "oracle_selfcheck_max_rel_change_on_panel_doubling": selfcheck,
         "library_integration_warnings": nwarn,
+        "accuracy_probe_outside_alphabet": probes,
     }
     rep.assumptions = [
         "oracle: own frequency-space Gauss-Legendre quadrature (props/c12_oracle.py) with exact cell kernels; validated "
         "against the T=0 exponential closed forms (<= 6e-13 relative) and by panel doubling (reported)",
         "only the default quadrature tolerance epsrel = 2^-26 of the library is exercised",
-        "tolerances are scaled with |eta| at the corner times, because the library forms cells as differences of eta; for "
-        "zeta < 1 and T > 0 the library's thermal kernel loses digits at small w (IntegrationWarning) and an absolute "
-        "noise allowance proportional to T*alpha is added (measured: <= 1.7e-6 relative at dt >= 0.05, more for smaller dt)",
+        "tolerances are scaled with |eta| at the corner times, because the library forms cells as differences of eta, plus "
+        "QUADPACK's default absolute tolerance which the library leaves in force; for zeta < 1 and T > 0 the library "
+        "reaches only 1e-7..2e-6 relative accuracy (IntegrationWarning) and a wider constant is used; zeta < 0.5 and "
+        "dt < 0.05 are outside the alphabet (accuracy_probe_outside_alphabet reports what happens there, unjudged)",
         "Matsubara 2D integrals are the analytic continuation eta(-i tau) = - int int D (measure (-i)^2), D(tau) = C(-i tau); "
         "they are only defined for T > 0 (the library raises for T = 0)",
         "C(-tau) = conj C(tau) is a property of the user's callable for CustomCorrelations; checked for the callables used",
